@@ -712,10 +712,17 @@ async fn execute_builtin_command<SE: extensions::ShellExtensions>(
     match (builtin.execute_func)(context, args).await {
         Ok(result) => Ok(result),
         Err(e) => {
-            // Broken pipe errors should silently return the appropriate exit code
+            // Broken pipe errors should silently return the appropriate exit code. Writing to
+            // a pipe that nobody reads would have raised SIGPIPE, whose default action ends the
+            // writing shell; since that signal is ignored in this process and we observe EPIPE
+            // instead, end this shell the same way. Otherwise a loop around the writer (e.g.,
+            // `while :; do echo y; done | head -1`) would never stop.
             if let Some(io_err) = e.as_io_error() {
                 if io_err.kind() == std::io::ErrorKind::BrokenPipe {
-                    return Ok(ExecutionExitCode::from(io_err).into());
+                    return Ok(ExecutionResult {
+                        exit_code: ExecutionExitCode::from(io_err),
+                        next_control_flow: ExecutionControlFlow::ExitShell,
+                    });
                 }
             }
 
